@@ -112,6 +112,32 @@ CLAIMS["C09"] = (
     "Assumes inspect.getmro order; input immutability is decided by C10's effect analysis.",
     "DESIGN.md §3 C09",
 )
+CLAIMS["C07"] = (
+    "grammar<->transformer arity agreement (lark grammar loader on the lifted literal), truth table of the shared step predicate, must-pass-through of the root sanitiser, decision tree of the bottom-up matcher",
+    "The xpath grammar literal is loaded and each rule is compared with what its transformer callback consumes (a variadic kept terminal needs a callback that uses all arguments: "
+    "all index digits significant); findall and match decide every step with one predicate whose truth table over six atoms equals the documented formula; both present the root "
+    "without field and index; '//' iterates a full traversal (findall) / every proper ancestor (match), '/' the direct children / parent; find is the first of findall. "
+    "These are necessary conditions on all paths; equivalence of the two algorithms as programs is not decided.",
+    "Assumes lark's argument filtering (anonymous tokens dropped) and Tree.get_parent_info's root convention (C06).",
+    "DESIGN.md §3 C07",
+)
+CLAIMS["C08"] = (
+    "decision trees of the matcher methods with integer length domains, singleton-state and post-init idempotence checks over the dataclass field table, purity scan",
+    "Per matcher method the decision tree is enumerated: regex API is match on str(value); node values compare by is_equal; the sequence length relation (equal / at least the listed "
+    "elements, with the tail representation read from __post_init__) dominates the zip for all lengths 0..3; isinstance over all class alternatives; BaseMatcher.match captures the very "
+    "object and returns {} on failure; tail slice; no matcher is a state-carrying singleton; no __post_init__ derives a non-init field from an init field it rewrites; match bodies store "
+    "nothing; cache filled only on success; first matching rule in order. The recursive semantics over all pattern x node pairs is not decided.",
+    "Assumes re.Pattern.match and dataclasses.replace semantics.",
+    "DESIGN.md §3 C08",
+)
+CLAIMS["C17"] = (
+    "exception-escape dataflow over the compile entry points, sibling ladder comparison, grammar exhaustiveness against the interpreter, post-init idempotence",
+    "For ASTXpath.__init__, from_pattern, validate_pattern and MultiPatternMatcher.__init__ every call on the text's data flow sits under a catch-all that converts to the definition error "
+    "or an error tuple, and only the definition error can escape; validate_pattern and from_pattern have the same ladder; every rule of the pattern grammar has an interpreter handler and vice "
+    "versa; a re-run __post_init__ cannot reject a grammatical text; both grammars ignore whitespace. Totality of lark and equality of matching behaviour of two compilations are not decided.",
+    "Assumes lark raises Exception subclasses; str methods on the text do not raise.",
+    "DESIGN.md §3 C17",
+)
 PENDING = "check not built yet (work in progress; see DESIGN.md for the planned static rules)"
 
 checks = []
